@@ -46,6 +46,7 @@ type Obligation struct {
 	Cond   Term
 	Res    SolverResult
 	Cover  bool // a cover query: expected sat
+	BackEdge bool // cover of a loop back edge
 	Canary bool // expected to fail (sat/unknown), never unsat
 }
 
